@@ -43,7 +43,11 @@ def d1(cx: Cx, ob: Ob) -> None:
         ob.site(f"{where(fn, line)} {fn.qualname}", f"return {show(t)[:60]}")
         x = t[2] if op(t) == "cmp" and t[1] in ("is not", "!=") and is_const(t[3], None) else None
         if x is None:
-            ob.undecide(f"is_curie returns `{show(t)[:60]}`, not a None-test")
+            if self_call(t, me) and t[1][2] not in ("expand", "parse_curie"):
+                ob.violate(fn.qualname, where(fn, line), f"is_curie is defined through `{show(t)[:60]}`, not through expand/parse_curie of its argument", detail="callee")
+                main = True
+            else:
+                ob.undecide(f"is_curie returns `{show(t)[:60]}`, not a None-test")
             continue
         main = True
         if self_call(x, me) and x[1][2] in ("expand", "parse_curie", "expand_strict") and x[2][:1] == (arg,):
